@@ -171,3 +171,13 @@ func BuildDir() string {
 	}
 	return filepath.Join(Root, ".build")
 }
+
+// GoMode says how the overlay treated the library's go statements in the binaries in use: "all" (every
+// one is a thread of the explorer), "lit" (function literals only) or "off".
+func GoMode() string {
+	b, err := os.ReadFile(filepath.Join(BuildDir(), "overlay.gomode"))
+	if err != nil {
+		return "unknown"
+	}
+	return strings.TrimSpace(string(b))
+}
